@@ -466,6 +466,38 @@ pub fn unit_daterange(o: &mut Out, tier: &str, r: &mut Rng) {
     }
 }
 
+// ---------------------------------------------------------------- rng: the sequential range API
+/// `prayer_times_dt_rng` over short ranges against the model's per-date results for the dates of
+/// the range (`rangeDates` + `prayerTimesDt`): the units above exercise one date per call, so state
+/// carried from one date of a range to the next would be invisible to them.  Half of the cases sit
+/// at latitudes 46..68 of either sign, where a range of a few weeks crosses the beginning or the
+/// end of the season without twilight (dates on which the policies and the Imsaak fallback apply
+/// next to dates on which they do not); a few ranges are empty or reversed.
+pub fn unit_rng(o: &mut Out, tier: &str, r: &mut Rng) {
+    let n = sizes(tier, 250, 8000);
+    for i in 0..n {
+        let p = gen_params(r, C07_SPACE);
+        let mut l = gen_location(r, 90., 12.);
+        if i % 2 == 0 {
+            let lat = r.range(46., 68.) * if r.chance(0.5) { 1. } else { -1. };
+            let lon = gen_lon(r);
+            l = loc(lat, lon, gen_elev(r), gen_gmt(r, lon, 4.));
+        }
+        let start = gen_rd(r).min(rd_of(2399, 10, 1));
+        let len = match i % 10 {
+            0 => r.int(-3, 0),
+            _ => r.int(1, 50),
+        };
+        let end = start + len - 1;
+        let res = guarded(|| {
+            let m = prayer_times_dt_rng(&p, l, &DateRange::from(date_of_rd(start)..=date_of_rd(end)));
+            let parts: Vec<String> = m.iter().map(|(d, day)| format!("{} {}", d.num_days_from_ce(), day_tokens(day))).collect();
+            format!("{} {}", parts.len(), parts.join(" | "))
+        });
+        o.case(format!("rng {} {} {} {}", params_tokens(&p), loc_tokens(&l), start, end), res);
+    }
+}
+
 // ---------------------------------------------------------------- qibla
 pub fn unit_qibla(o: &mut Out, tier: &str, r: &mut Rng) {
     let n = sizes(tier, 4000, 400000);
@@ -698,6 +730,7 @@ pub fn run_unit(name: &str, o: &mut Out, tier: &str, seed: u64) -> bool {
         "params" => unit_params(o, tier, &mut r),
         "hijri" => unit_hijri(o, tier, &mut r),
         "daterange" => unit_daterange(o, tier, &mut r),
+        "rng" => unit_rng(o, tier, &mut r),
         "qibla" => unit_qibla(o, tier, &mut r),
         "fmt1" => unit_fmt1(o, tier, &mut r),
         "qtext" => unit_qtext(o, tier, &mut r),
